@@ -61,6 +61,24 @@ def canonH : Handler := fun req => do
   pure (Json.mkObj [("model", Json.mkObj [("canon", Json.arr model.toArray)]), ("match", ok), ("judge", judge),
     ("branch", Json.str (if !bad.isEmpty then "collision" else if anyEq then "equal-pair" else "distinct"))])
 
+/-! #### cache.canon_perm (C11): the schemas of one case are RE-ORDERINGS of one document (object members shuffled at every
+depth; the driver's JSON reader does not even see the order). The model's canonical form is one and the same for all of
+them (`canon_permJ`); the judge demands the same of the implementation's. -/
+
+def canonPermH : Handler := fun req => do
+  let inp ← field req "in"
+  let impl ← field req "impl"
+  let vals ← arr (← field inp "values")
+  let implC ← arr (← field impl "canon")
+  let js ← vals.mapM fun v => match v with | .null => pure none | v => do pure (some (← toJ v))
+  let model := js.map fun j => match j with | some j => str (canonString j) | none => Json.null
+  let ok := (model.zip implC).all fun (m, c) => m == Json.null || m == c
+  let distinct := implC.eraseDups
+  let judge := if distinct.length ≤ 1 then verdict true []
+    else verdict false [] s!"re-orderings of ONE schema get {distinct.length} different canonical forms (cache keys): {(distinct.map (·.compress)).map (·.take 160)}"
+  pure (Json.mkObj [("model", Json.mkObj [("canon", Json.arr model.toArray)]), ("match", ok), ("judge", judge),
+    ("branch", Json.str (if vals.any (fun v => (v.compress.splitOn "{").length > 3) then "nested-objects" else "flat"))])
+
 /-! #### cache.enum_key -/
 
 def typeIsString (j : Json) : Bool :=
@@ -517,7 +535,7 @@ def shareRespH : Handler := fun req => do
     ("branch", Json.str (if mShare.isEmpty then "distinct" else "share")), ("impl_view", implView)])
 
 def ops : List (String × Handler) := [
-  ("cache.canon", canonH), ("cache.enum_key", enumKeyH), ("cache.union_fp", unionFpH), ("cache.script", scriptH),
+  ("cache.canon", canonH), ("cache.canon_perm", canonPermH), ("cache.enum_key", enumKeyH), ("cache.union_fp", unionFpH), ("cache.script", scriptH),
   ("share.sites", shareSitesH), ("share.resp", shareRespH)
 ]
 
